@@ -16,8 +16,8 @@ def rule_a(ctx):
     edges, wit = lock_order(ctx, "C18.a", floor=4)
     L = lockinfo(F)
     # the fallback lock is only ever taken while the data lock is held
-    data = [l for l in L.locks() if "HalfLock<signal_hook_registry::SignalData>" in l]
-    fb = [l for l in L.locks() if "HalfLock<core::option::Option<signal_hook_registry::Prev>>" in l]
+    data = [l for l in L.locks() if "HalfLock<signal_hook_registry::SignalData>" in l and l.endswith("write_mutex")]
+    fb = [l for l in L.locks() if "HalfLock<core::option::Option<signal_hook_registry::Prev>>" in l and l.endswith("write_mutex")]
     if len(data) != 1 or len(fb) != 1:
         raise AnchorLost("data / fallback writer mutexes: %s %s" % (data, fb))
     n = 0
